@@ -6,6 +6,8 @@ import (
 	"context"
 	"fmt"
 	"sort"
+	"sync"
+	"sync/atomic"
 	"time"
 )
 
@@ -16,6 +18,7 @@ import (
 func init() {
 	register("C04T", func(h *hctx) { timedSweep(h, "c04", c04Variants(h)) })
 	register("C05S", func(h *hctx) { timedSweep(h, "c05", c05Variants(h)) })
+	register("C12S", func(h *hctx) { timedSweep(h, "c12", c12Variants(h)) })
 }
 
 type timedCase struct {
@@ -311,4 +314,70 @@ func (r *bufRun) putAsync(n int) {
 	r.mu.Unlock()
 	o := r.launch(op, func(*bufOp) []int { return errOut(r.b.Put(context.Background(), vals...)) })
 	<-o.done
+}
+
+// ---- C12: cancelling the context a Buffer was built on shuts it down (delay sweep over the cleaner's WaitCond) ------
+
+func c12Variants(h *hctx) []timedCase {
+	mk := func(name string, inCleaner bool) timedCase {
+		return timedCase{name: name, delay: 2 * time.Millisecond, hits: 2,
+			run: func(h *hctx, id string, inject time.Duration) {
+				base := libGoroutineCount()
+				parent, cancelParent := context.WithCancel(context.Background())
+				defer cancelParent()
+				gate := make(chan struct{})
+				var once sync.Once
+				var armed atomic.Bool
+				cl := func(size int, offs []int) int {
+					if inCleaner && armed.Load() {
+						// the cancellation lands while the user's cleaner callback is running (the cleaner goroutine holds
+						// the buffer lock, past its own context check)
+						once.Do(func() { cancelParent(); <-gate })
+					}
+					return DefaultCleaner(size, offs)
+				}
+				b := &Buffer{ctx: parent, cleaner: &CleanerConfig{Cleaner: cl, Cooldown: 0}}
+				c, err := b.NewConsumer()
+				if err != nil {
+					h.line("MONITOR C12 NewConsumer failed on an open buffer built on a live context")
+					return
+				}
+				if inCleaner {
+					// the callback (holding the buffer lock) is released by a timer, not by this goroutine, which may itself
+					// be waiting for that lock inside Put
+					time.AfterFunc(400*time.Microsecond, func() { close(gate) })
+				}
+				armed.Store(true)
+				_ = b.Put(nil, 1, 2)
+				if inCleaner {
+					<-gate
+				} else {
+					time.Sleep(time.Duration(h.rng.Intn(300)) * time.Microsecond)
+					cancelParent()
+				}
+				select {
+				case <-b.Done():
+				case <-time.After(inject + 2*time.Second):
+					h.line("MONITOR C12 Buffer.Done not closed 2 s after the context it was built on was cancelled (%s): %s", id, libGoroutineDump())
+					_ = c.Rollback()
+					return
+				}
+				select {
+				case <-c.Done():
+				case <-time.After(time.Second):
+					h.line("MONITOR C12 consumer Done not closed after its buffer's context was cancelled (%s)", id)
+				}
+				if err := b.Put(nil, 3); err == nil {
+					h.line("MONITOR C12 Put succeeded after the buffer's context was cancelled (%s)", id)
+				}
+				if _, err := b.NewConsumer(); err == nil {
+					h.line("MONITOR C12 NewConsumer succeeded after the buffer's context was cancelled (%s)", id)
+				}
+				if n, ok := waitLibBaseline(base, inject+2*time.Second); !ok {
+					h.line("MONITOR C12 %d library goroutine(s) left after the buffer's context was cancelled (%s): %s", n-base, id, libGoroutineDump())
+				}
+				h.line("F c12_buffer_case %s 9 1 | 1", id)
+			}}
+	}
+	return []timedCase{mk("ctx", false), mk("ctxincleaner", true)}
 }
